@@ -59,6 +59,17 @@ class RealBreaker:
             class_thresholds=MappingProxyType(cthr) if shape >= 2 else cthr,
             clock=clock,
         )
+        # the containers stay the caller's: what happens to them afterwards (another breaker built
+        # from the same set, later edits) is of no consequence for this breaker
+        decoy = {k: 1 for k in ErrorClass if k not in trip and k not in cthr}
+        if isinstance(trip_on, set):
+            CircuitBreaker(failure_threshold=1, window_s=1.0, recovery_timeout_s=1.0, trip_on=trip_on,
+                           class_thresholds=decoy, clock=clock)
+            trip_on.update(ErrorClass)
+        elif isinstance(trip_on, list):
+            trip_on.extend(ErrorClass)
+        if shape < 2:
+            cthr.clear()
 
     def _state(self) -> str:
         return STATE_NAME.get(self.b.state.value, str(self.b.state.value))
